@@ -8,6 +8,7 @@ package animenc
 
 import (
 	"bytes"
+	"errors"
 	"encoding/hex"
 	"fmt"
 	"image"
@@ -27,7 +28,28 @@ type Frame struct {
 	W, H      int
 	Pix       []byte // NRGBA, W*H*4
 	DurMS     int
-	Placement int // 0: *image.NRGBA at origin, 1: sub-image of a larger parent, 2: generic image.Image wrapper
+	Placement int // 0: *image.NRGBA at origin, 1: sub-image of a larger parent, 2: generic image.Image wrapper, 3: *image.RGBA, 4: stride-padded NRGBA, 5: wrapper around a sub-image
+	Raw       []byte `json:",omitempty"` // placement 3: the premultiplied RGBA pixels handed to AddFrame
+	// RawOp != nil: the picture is encoded by the caller and added as a ready bitstream
+	// (AddRawFrame, or AddFrame(NewBitstreamFrame(...)) when ViaAddFrame is set).
+	RawOp *RawSpec `json:",omitempty"`
+}
+
+// RawSpec are the parameters of an AddRawFrame call.
+type RawSpec struct {
+	X, Y              int
+	BlendNone, DispBG bool
+	ViaAddFrame       bool
+}
+
+// HasRaw reports whether the history adds pre-encoded frames.
+func (h *History) HasRaw() bool {
+	for _, f := range h.Frames {
+		if f.RawOp != nil {
+			return true
+		}
+	}
+	return false
 }
 
 // History is one encoder session.
@@ -36,7 +58,24 @@ type History struct {
 	Lossless, Mixed        bool
 	Quality                int
 	Frames                 []Frame
+	// metadata set on the encoder (nil: not set); MetaAt: before which AddFrame call
+	// (len(Frames): just before Close)
+	ICC, EXIF, XMP []byte
+	MetaAt         int
+	// FailCalls: indices (0-based, over the whole session) of FrameEncoderFunc calls that
+	// are made to fail (error injection); AddFrame calls that return an error are then
+	// expected to leave the animation as it was.
+	FailCalls []int `json:",omitempty"`
+	// AtLimit: the history is longer than the muxer's frame limit; AddFrame calls are
+	// expected to be refused once it is reached (treated like injected failures).
+	AtLimit bool `json:",omitempty"`
 }
+
+// Faulty: AddFrame errors are expected and tolerated.
+func (h *History) Faulty() bool { return len(h.FailCalls) > 0 || h.AtLimit }
+
+// HasMeta reports whether any metadata blob is set (a non-nil empty blob counts).
+func (h *History) HasMeta() bool { return h.ICC != nil || h.EXIF != nil || h.XMP != nil }
 
 type encCall struct {
 	lossless bool
@@ -71,9 +110,49 @@ type Outcome struct {
 	Canvases   [][]byte // played canvases, NRGBA
 	Durations  []int
 	EmitInput  []int // per emitted muxer frame: the AddFrame index
+	Rejected   []int // AddFrame calls that returned an error (error injection only)
 	EmitFiller []bool
 	State      string
+	ICC, EXIF, XMP []byte `json:"-"`
 	Bytes      []byte
+}
+
+var errInjected = errors.New("injected encoder failure")
+
+// Accepted returns the history of the AddFrame calls that succeeded, and the outcome with
+// its frame -> input map re-indexed to that history.
+func (h *History) Accepted(o *Outcome) (*History, *Outcome) {
+	if len(o.Rejected) == 0 {
+		return h, o
+	}
+	rej := map[int]bool{}
+	for _, i := range o.Rejected {
+		rej[i] = true
+	}
+	g := *h
+	g.Frames = nil
+	g.FailCalls = nil
+	newIdx := make([]int, len(h.Frames))
+	for i, f := range h.Frames {
+		newIdx[i] = len(g.Frames)
+		if !rej[i] {
+			g.Frames = append(g.Frames, f)
+		}
+	}
+	o2 := *o
+	o2.Frames = append([]ContFrame(nil), o.Frames...)
+	o2.EmitInput = nil
+	o2.EmitFiller = nil
+	for k := range o2.Frames {
+		if o2.Frames[k].Input >= 0 {
+			o2.Frames[k].Input = newIdx[o2.Frames[k].Input]
+		}
+	}
+	for k, i := range o.EmitInput {
+		o2.EmitInput = append(o2.EmitInput, newIdx[i])
+		o2.EmitFiller = append(o2.EmitFiller, o.EmitFiller[k])
+	}
+	return &g, &o2
 }
 
 type wrapImage struct{ im *image.NRGBA }
@@ -102,10 +181,53 @@ func (f *Frame) image(rng *Rand) image.Image {
 		im := image.NewNRGBA(image.Rect(0, 0, f.W, f.H))
 		copy(im.Pix, f.Pix)
 		return wrapImage{im}
+	case 3: // *image.RGBA (premultiplied); f.Pix holds what color.NRGBAModel reads back from it
+		im := image.NewRGBA(image.Rect(0, 0, f.W, f.H))
+		copy(im.Pix, f.Raw)
+		return im
+	case 4: // *image.NRGBA at origin (0,0) with stride padding (sub-image of a wider parent)
+		parent := image.NewNRGBA(image.Rect(0, 0, f.W+3, f.H+2))
+		for i := range parent.Pix {
+			parent.Pix[i] = byte(rng.U64())
+		}
+		sub := parent.SubImage(image.Rect(0, 0, f.W, f.H)).(*image.NRGBA)
+		for y := 0; y < f.H; y++ {
+			for x := 0; x < f.W; x++ {
+				p := f.Pix[(y*f.W+x)*4:]
+				sub.SetNRGBA(x, y, color.NRGBA{R: p[0], G: p[1], B: p[2], A: p[3]})
+			}
+		}
+		return sub
+	case 5: // generic wrapper around a sub-image with a non-zero origin
+		g := *f
+		g.Placement = 1
+		return wrapImage{g.image(rng).(*image.NRGBA)}
 	default:
 		im := image.NewNRGBA(image.Rect(0, 0, f.W, f.H))
 		copy(im.Pix, f.Pix)
 		return im
+	}
+}
+
+// rgba builds the premultiplied picture of f.Pix.
+func (f *Frame) rgba() *image.RGBA {
+	im := image.NewRGBA(image.Rect(0, 0, f.W, f.H))
+	for i := 0; i < f.W*f.H; i++ {
+		p := f.Pix[i*4:]
+		im.Set(i%f.W, i/f.W, color.NRGBA{R: p[0], G: p[1], B: p[2], A: p[3]})
+	}
+	return im
+}
+
+// UseRGBA makes the frame an *image.RGBA input: the picture that is added is what
+// color.NRGBAModel reads back from the premultiplied pixels.
+func (f *Frame) UseRGBA() {
+	f.Placement = 3
+	im := f.rgba()
+	f.Raw = append([]byte(nil), im.Pix...)
+	for i := 0; i < f.W*f.H; i++ {
+		c := color.NRGBAModel.Convert(im.At(i%f.W, i/f.W)).(color.NRGBA)
+		f.Pix[i*4], f.Pix[i*4+1], f.Pix[i*4+2], f.Pix[i*4+3] = c.R, c.G, c.B, c.A
 	}
 }
 
@@ -179,7 +301,17 @@ func Run(h *History, rng *Rand) (out *Outcome) {
 	origEnc, origSimple := animation.FrameEncoderFunc, animation.SimpleEncodeFunc
 	defer func() { animation.FrameEncoderFunc, animation.SimpleEncodeFunc = origEnc, origSimple }()
 	var calls []encCall
+	callNo := -1
+	fail := map[int]bool{}
+	for _, k := range h.FailCalls {
+		fail[k] = true
+	}
 	animation.FrameEncoderFunc = func(img image.Image, lossless bool, quality int) ([]byte, error) {
+		callNo++
+		if fail[callNo] {
+			calls = append(calls, encCall{lossless, 0, false})
+			return nil, errInjected
+		}
 		bs, err := origEnc(img, lossless, quality)
 		calls = append(calls, encCall{lossless, len(bs), err == nil})
 		return bs, err
@@ -200,24 +332,88 @@ func Run(h *History, rng *Rand) (out *Outcome) {
 		out.Err = "nil"
 		return
 	}
+	setMeta := func() {
+		if h.ICC != nil {
+			e.SetICCProfile(h.ICC)
+		}
+		if h.EXIF != nil {
+			e.SetEXIF(h.EXIF)
+		}
+		if h.XMP != nil {
+			e.SetXMP(h.XMP)
+		}
+	}
 	prevCount := 0
+	lastAcc := -1
 	for i := range h.Frames {
+		if h.MetaAt == i {
+			setMeta()
+		}
 		calls = calls[:0]
+		if ro := h.Frames[i].RawOp; ro != nil {
+			f := &h.Frames[i]
+			im := image.NewNRGBA(image.Rect(0, 0, f.W, f.H))
+			copy(im.Pix, f.Pix)
+			bs, err := origEnc(im, true, 75)
+			if err != nil {
+				out.Err = "rawencodeerr"
+				return
+			}
+			dur := time.Duration(f.DurMS) * time.Millisecond
+			if ro.ViaAddFrame {
+				err = e.AddFrame(animation.NewBitstreamFrame(bs, f.W, f.H), dur)
+			} else {
+				bl, di := animation.BlendAlpha, animation.DisposeNone
+				if ro.BlendNone {
+					bl = animation.BlendNone
+				}
+				if ro.DispBG {
+					di = animation.DisposeBackground
+				}
+				err = e.AddRawFrame(bs, dur, ro.X, ro.Y, bl, di)
+			}
+			if err != nil {
+				out.Err = "addrawerr"
+				return
+			}
+			continue
+		}
 		if err := e.AddFrame(h.Frames[i].image(rng), time.Duration(h.Frames[i].DurMS)*time.Millisecond); err != nil {
-			out.Err = "adderr"
-			return
+			if !h.Faulty() {
+				out.Err = "adderr"
+				return
+			}
+			out.Rejected = append(out.Rejected, i)
+			out.Oracles = append(out.Oracles, StepOracle{})
+			continue
 		}
 		out.Oracles = append(out.Oracles, deriveOracle(calls, h.Mixed))
 		fc, _, _, _, _, _, _ := animation.VerifEncoderState(e)
 		for ; prevCount < fc; prevCount++ {
 			out.EmitInput = append(out.EmitInput, i)
-			out.EmitFiller = append(out.EmitFiller, i > 0 && bytes.Equal(h.Pad(i), h.Pad(i-1)))
+			out.EmitFiller = append(out.EmitFiller, lastAcc >= 0 && bytes.Equal(h.Pad(i), h.Pad(lastAcc)))
 		}
+		lastAcc = i
 	}
 	fc, since, pr, pidx, kmin, kmax, loop := animation.VerifEncoderState(e)
 	out.State = fmt.Sprintf("%d %d %d,%d,%d,%d %d %d %d %d", fc, since, pr.Min.X, pr.Min.Y, pr.Max.X, pr.Max.Y, pidx, kmin, kmax, loop)
+	if h.MetaAt >= len(h.Frames) {
+		setMeta()
+	}
 	if err := e.Close(); err != nil {
+		if len(out.Rejected) == len(h.Frames) && buf.Len() == 0 {
+			out.Err = "noframes" // every AddFrame was rejected: nothing is written
+			return
+		}
 		out.Err = "closeerr"
+		return
+	}
+	if err := e.Close(); err != nil { // a second Close is a no-op
+		out.Err = "close2err"
+		return
+	}
+	if e.AddFrame(h.Frames[0].image(rng), 0) == nil {
+		out.Err = "addafterclose"
 		return
 	}
 	data := buf.Bytes()
@@ -245,7 +441,7 @@ func Run(h *History, rng *Rand) (out *Outcome) {
 			cf.Input = out.EmitInput[i]
 			cf.Filler = out.EmitFiller[i]
 		} else if out.Still {
-			cf.Input = len(h.Frames) - 1
+			cf.Input = lastAcc
 		}
 		out.Frames = append(out.Frames, cf)
 	}
@@ -254,6 +450,7 @@ func Run(h *History, rng *Rand) (out *Outcome) {
 		out.Err = "decodeerr"
 		return
 	}
+	out.ICC, out.EXIF, out.XMP = an.ICC, an.EXIF, an.XMP
 	if err := an.DecodeFrames(); err != nil {
 		out.Err = "decodeframeserr"
 		return
@@ -341,8 +538,8 @@ func AlphaPlane(c []byte) []byte {
 // CaseLine renders the history with the recorded oracle for the model runner.
 func (h *History) CaseLine(mode string, o *Outcome) string {
 	var sb strings.Builder
-	fmt.Fprintf(&sb, "enc %s %d %d %d %d %d %d %d %d %d %d", mode, h.W, h.H, h.Loop, h.Kmin, h.Kmax,
-		b2i(h.Lossless), b2i(h.Mixed), h.Quality, b2i(o.Simple), len(h.Frames))
+	fmt.Fprintf(&sb, "enc %s %d %d %d %d %d %d %d %d %d %d %d", mode, h.W, h.H, h.Loop, h.Kmin, h.Kmax,
+		b2i(h.Lossless), b2i(h.Mixed), h.Quality, b2i(h.HasMeta()), b2i(o.Simple), len(h.Frames))
 	for i, f := range h.Frames {
 		var so StepOracle
 		if i < len(o.Oracles) {
